@@ -190,6 +190,11 @@ ERR_LEAVES = [
     lambda r: [S("m-tmpl-arity"), Q([9])],
     lambda r: [S("m-built-call"), Q([1])],
     lambda r: [S("m-built-unbound"), 3],
+    # package-qualified names that do not resolve, written as ARGUMENTS behind other arguments (the error is the symbol's)
+    lambda r: [S("list"), [S("list"), 1, 2], S("lisp:no-such-thing")],
+    lambda r: [S("+"), 1, 2, S("nopkg:pi")],
+    lambda r: [S("list"), S("n"), S("lisp:nope"), 3],
+    lambda r: [S("identity"), S("nopkg:x")],
     lambda r: [S("m-splice-mid"), Q([1])],
     lambda r: [S("m-splice-two"), 4],
     lambda r: [S("m-splice-body"), [S("probe"), Q(S("in-body"))], 1],
